@@ -48,6 +48,13 @@ impl VxPath {
     pub fn ends_with<T: VxPathText>(&self, s: T) -> (r: bool) { unimplemented!() }
     #[verifier::external_body]
     pub fn starts_with<T: VxPathText>(&self, s: T) -> (r: bool) { unimplemented!() }
+    // has_root / is_absolute / is_relative: say nothing about `..` components further in
+    #[verifier::external_body]
+    pub fn has_root(&self) -> (r: bool) { unimplemented!() }
+    #[verifier::external_body]
+    pub fn is_absolute(&self) -> (r: bool) { unimplemented!() }
+    #[verifier::external_body]
+    pub fn is_relative(&self) -> (r: bool) { unimplemented!() }
 }
 // a member of the archive: its recorded name, its bytes, its kind
 pub struct VxMember { pub name: Seq<char>, pub bytes: Seq<u8> }
